@@ -7,8 +7,8 @@
    poll_fn(|cx| pin_framed.poll_next(cx)).await            [next_item (cc_decode ..) (deof_default ..)]
      .ok_or(ConnectError::Disconnected)??                    NNone -> HErr SDisconnected,
                                                              NErr e -> HErr (SResponse e)
-   (fix F17) `loop { .. if 1xx && != 101 && message_type    [read_head] with [f17 = true]
-     == None { continue } break head }`                     ([f17 = false]: the tree before the fix)
+   (proposed fix F17) `loop { .. if 1xx && != 101 && message_type    [read_head] with [f17 = true]
+     == None { continue } break head }`                     ([f17 = false]: THE TREE AS IT IS)
    match codec.message_type() { None => on_release(ka) ..} [exchange], arm MTNone
    PlStream::poll_next                                      [pl_poll_next]
        Some(Some(chunk)) => Ready(Some(Ok(chunk)))             PlChunk
@@ -26,8 +26,8 @@
 From AV Require Import Lib.Base H1.Chunked H1.PayloadDec H1.Framing Client.ClientCodec.
 
 Record variant := mk_variant { f9_fixed : bool; f17_fixed : bool }.
-Definition v_orig : variant := mk_variant false false.     (* tree at 612c264 *)
-Definition v_fixed : variant := mk_variant true true.      (* with fixes/F9.patch + fixes/F17.patch *)
+Definition v_orig : variant := mk_variant false false.     (* THE TREE AS IT IS (findings F9, F17) *)
+Definition v_fixed : variant := mk_variant true true.      (* with the two proposed patches (not applied) *)
 
 Inductive senderr := SDisconnected | SResponse (e : perr) | STimeout | SPanic.
 Inductive bodyres := BOk (b : bytes) | BErr (e : plerr) | BTimeout | BPanic.
